@@ -401,6 +401,27 @@ func c01(c *ctx) {
 		shapes.Add("conc/%d", procs)
 		n++
 	}
+	// whole frames whose payload exceeds the 1 MiB preallocation limit, from sources that hand over their
+	// last bytes together with io.EOF (a complete frame is a complete frame however the end is signalled)
+	for _, pl := range []int{1 << 20, 1<<20 + 1, 2<<20 + 3} {
+		for _, dataErr := range []bool{false, true} {
+			for ci, chunk := range [][]int{nil, {65536}, {1<<20 - 1, 7}} {
+				key := fmt.Sprintf("framebig/%d/%v/%d", pl, dataErr, ci)
+				if !vh.Only(key) {
+					continue
+				}
+				h := vh.H{Fin: true, Op: 2, Mask: []int{0, 0, 0, 0}, N: uint64(pl)}
+				h.Len = vh.Len8(h.N)
+				payload := vh.PBytes(5, 0, pl)
+				in := append(vh.OwnEncode(h), payload...)
+				f, err := ws.ReadFrame(&vh.ChunkReader{Data: in, Sizes: chunk, DataErr: dataErr})
+				out.Emit(map[string]interface{}{"k": "framebig", "key": key, "plen": pl, "rerr": vh.ErrClass(err),
+					"rpayOK": bytes.Equal(f.Payload, payload), "rlen": int(f.Header.Length)}, true)
+				shapes.Add("framebig/%d/%v", pl, dataErr)
+				n++
+			}
+		}
+	}
 	// ReadFrame on a truncated payload must fail
 	for _, pl := range []int{1, 125, 126, 65536} {
 		for _, cut := range []int{0, 1, pl - 1} {
